@@ -319,3 +319,172 @@ func (w *Worker) runC04Analyzer(rc *simapi.RunConfig) *simapi.RunResult {
 	res.Digest = hashStrings(strings.Join(all, "\n"), fmt.Sprint(out.Sched.Hash, out.Sched.Steps))
 	return res
 }
+
+// ---------------------------------------------------------------------------
+// C19 (a): the analyzer's error latch under pass sequences and parallel passes.
+// ---------------------------------------------------------------------------
+
+type cfgFault struct {
+	Name  string            // fault kind
+	Flags map[string]string // analyzer flags that carry it
+	Names []string          // the message must contain one of these (the problem is named)
+	Stage string            // "flag" when the flag package itself must reject the value
+}
+
+func (w *Worker) configFaults(r *simrt.Rand) cfgFault {
+	rulesFile := w.job.RepoDir + "/checkers/testdata/_integration/ruleguard/rules.go"
+	switch r.Intn(6) {
+	case 0:
+		vs := []string{"abc", "1", "1.x", "go1", "1.2.3", "v1.20", "1.", ".5"}
+		v := vs[r.Intn(len(vs))]
+		return cfgFault{Name: "malformed-go-version", Flags: map[string]string{"go": v}, Names: []string{v, strings.TrimPrefix(v, "go"), "version"}}
+	case 1:
+		vs := []string{"bogus", "DSL", "dsl,nope", "import;dsl"}
+		v := vs[r.Intn(len(vs))]
+		bad := v
+		if i := strings.LastIndex(v, ","); i >= 0 {
+			bad = v[i+1:]
+		}
+		return cfgFault{Name: "unknown-failOn", Flags: map[string]string{"enable": "ruleguard", "disable": "", "@ruleguard.rules": rulesFile, "@ruleguard.failOn": v}, Names: []string{bad}}
+	case 2:
+		p := "/gcsim-nonexistent/rules-*.go"
+		return cfgFault{Name: "rules-pattern-without-match", Flags: map[string]string{"enable": "ruleguard", "disable": "", "@ruleguard.rules": p}, Names: []string{p}}
+	case 3:
+		vs := []string{"nosuchchecker", "#nosuchtag", "nosuch1,nosuch2"}
+		v := vs[r.Intn(len(vs))]
+		return cfgFault{Name: "empty-selection", Flags: map[string]string{"enable": v, "disable": ""}, Names: []string{"empty", "no checkers", "selected", v}}
+	case 4:
+		return cfgFault{Name: "empty-selection-by-disable", Flags: map[string]string{"enable": "hugeParam", "disable": "hugeParam"}, Names: []string{"empty", "no checkers", "selected"}}
+	default:
+		vs := []string{"abc", "1.5", "", "0x"}
+		v := vs[r.Intn(len(vs))]
+		return cfgFault{Name: "unparsable-parameter", Flags: map[string]string{"@hugeParam.sizeThreshold": v}, Names: []string{"sizeThreshold", v}, Stage: "flag"}
+	}
+}
+
+func (w *Worker) genC19(rc *simapi.RunConfig) {
+	r := simrt.NewRand(rc.RunSeed, "fault")
+	rc.Kind = "analyzer-config"
+	k := 1 + r.Intn(6)
+	pkgs := w.pickPkgs(r, rc.Index, k)
+	for _, p := range pkgs {
+		rc.Visits = append(rc.Visits, simapi.Visit{Pkg: p, Files: w.index.AllFiles(p)})
+	}
+	ft := w.configFaults(r)
+	ex := anaExtra{Flags: ft.Flags, Fault: ft.Name, Parallel: r.Intn(2) == 0 && k > 1, Order: r.Perm(k)}
+	rc.Extra, _ = json.Marshal(struct {
+		anaExtra
+		Names []string `json:"names"`
+		Stage string   `json:"stage,omitempty"`
+	}{ex, ft.Names, ft.Stage})
+	sr := simrt.NewRand(rc.RunSeed, "sched")
+	v := genVariant(sr, false)
+	v.MapPolicy, v.MapSeed = simrt.MapCanonical, 0
+	rc.Variants = []simapi.Variant{v}
+}
+
+func containsAny(s string, subs []string) bool {
+	for _, x := range subs {
+		if x != "" && strings.Contains(s, x) {
+			return true
+		}
+	}
+	return false
+}
+
+func (w *Worker) runC19(rc *simapi.RunConfig) *simapi.RunResult {
+	res := &simapi.RunResult{Stats: map[string]int64{}, Probes: map[string]int64{}, Faults: map[string]int64{}}
+	var ex struct {
+		anaExtra
+		Names []string `json:"names"`
+		Stage string   `json:"stage,omitempty"`
+	}
+	json.Unmarshal(rc.Extra, &ex)
+	var pkgs []string
+	for _, v := range rc.Visits {
+		pkgs = append(pkgs, v.Pkg)
+	}
+	v := &rc.Variants[0]
+	if v.Sched != nil {
+		if len(v.CPFrac) > 0 {
+			resolve(v, 20000) // init-only runs are short; fractions of a nominal length
+		}
+		if v.Sched.StepBudget == 0 {
+			v.Sched.StepBudget = defaultBudget
+		}
+	}
+	out := w.execAnalyzer(&ex.anaExtra, pkgs, v)
+	res.Faults["config:"+ex.Fault]++
+	mode := "sequential"
+	if ex.Parallel {
+		mode = "parallel"
+	}
+	id := func(class string) string { return class + ":" + ex.Fault }
+	add := func(class, detail string) {
+		res.Violations = append(res.Violations, simapi.Violation{Class: class, Identity: id(class),
+			Detail: fmt.Sprintf("%s (fault %s, flags %v, %d passes, %s, order %v)", detail, ex.Fault, ex.Flags, len(pkgs), mode, ex.Order)})
+	}
+	if out.FlagErr != "" {
+		// the driver's flag package rejected the value: a clean failure as long as it names the problem
+		if !containsAny(out.FlagErr, ex.Names) {
+			add("error-does-not-name-problem", fmt.Sprintf("flag error %q names none of %v", out.FlagErr, ex.Names))
+		}
+		res.Stats["rejected_by_flag_package"]++
+	} else if ex.Stage == "flag" {
+		add("invalid-value-accepted", "an unparsable parameter value was accepted by the flag set")
+	} else {
+		anyErr, firstErr := false, false
+		first := ex.Order[0]
+		if len(ex.Order) != len(pkgs) {
+			first = 0
+		}
+		entered2 := 0
+		for i := range out.Passes {
+			p := &out.Passes[i]
+			if p.Panic != "" {
+				add("pass-panic", fmt.Sprintf("pass over %s panicked: %s", p.Pkg, p.Panic))
+				break
+			}
+			if len(p.Diags) > 0 {
+				add("analysed-despite-config-error", fmt.Sprintf("pass over %s reported %d diagnostics although the configuration is invalid, e.g. %s", p.Pkg, len(p.Diags), p.Diags[0].Key()))
+				break
+			}
+			if p.Err != "" {
+				anyErr = true
+				if i == first {
+					firstErr = true
+				}
+				if !containsAny(p.Err, ex.Names) {
+					add("error-does-not-name-problem", fmt.Sprintf("pass over %s: error %q names none of %v", p.Pkg, p.Err, ex.Names))
+					break
+				}
+			} else {
+				entered2++
+			}
+		}
+		if len(res.Violations) == 0 {
+			if !anyErr {
+				add("config-error-not-reported", "no pass returned an error: a driver would exit with status 0 and analyse nothing")
+			} else if !ex.Parallel && !firstErr {
+				add("config-error-not-reported-by-first-pass", "the first pass of a sequential driver returned no error")
+			}
+		}
+		if entered2 > 0 && anyErr {
+			res.Probes["later_pass_entered_after_init_error"] += int64(entered2)
+		}
+	}
+	res.NonTrivial = true
+	res.Stats["analyzer_passes"] = int64(len(pkgs))
+	res.Stats["steps"] = out.Sched.Steps
+	res.Stats["handovers"] = out.Sched.Handovers
+	res.Stats["interleaved_switches"] = out.Sched.Interleaved
+	res.Probes["mode_"+mode]++
+	res.Probes[fmt.Sprintf("passes_%d", len(pkgs))]++
+	res.DecisionID = hashStrings(string(rc.Extra), fmt.Sprint(rc.Visits), fmt.Sprint(out.Sched.Hash))
+	var sig []string
+	for _, p := range out.Passes {
+		sig = append(sig, p.Pkg+"|"+p.Err+"|"+p.Panic+"|"+fmt.Sprint(len(p.Diags)))
+	}
+	res.Digest = hashStrings(strings.Join(sig, "\n"), out.FlagErr, fmt.Sprint(out.Sched.Hash, out.Sched.Steps))
+	return res
+}
